@@ -81,7 +81,19 @@ func ruleR21() *Rule {
 						"the cache entry is filled through the first caller's exclusion bitmap: later searches with another bitmap see a truncated / wrong id->doc map", uniq(hits)...)
 				}
 			}
-			c.check(n >= 3, "source-params", "-", "cache methods with a per-call bitmap parameter are found (confirmed by hand: loadOrCreate, loadFromCache, createAndCacheLOCKED)", fmt.Sprintf("found %d", n))
+			// (on the pinned tree: loadOrCreate, loadFromCache, createAndCacheLOCKED; how many
+			// functions the look-up is spread over is not part of the property — the
+			// entry point must be among them)
+			loc := c.method("vectorIndexCache", "loadOrCreate")
+			hasBM := false
+			if loc != nil {
+				for _, prm := range loc.Params {
+					if isBitmapPtr(prm.Type()) {
+						hasBM = true
+					}
+				}
+			}
+			c.check(n >= 1 && hasBM, "source-params", "-", "cache methods with a per-call bitmap parameter are found, the entry point loadOrCreate among them", fmt.Sprintf("found %d (loadOrCreate takes a bitmap: %v)", n, hasBM))
 		},
 	}
 }
@@ -100,13 +112,24 @@ func ruleR22() *Rule {
 			ceClose := c.method("cacheEntry", "close")
 			cleanup := c.method("vectorIndexCache", "cleanup")
 			clear_ := c.method("vectorIndexCache", "Clear")
-			lfc := c.method("vectorIndexCache", "loadFromCache")
-			cac := c.method("vectorIndexCache", "createAndCacheLOCKED")
 			cce := c.fn("createCacheEntry")
 			decRef := c.method("vectorIndexCache", "decRef")
-			if load == nil || ceClose == nil || cleanup == nil || clear_ == nil || lfc == nil || cac == nil || cce == nil || decRef == nil {
+			if load == nil || ceClose == nil || cleanup == nil || clear_ == nil || cce == nil || decRef == nil {
 				return
 			}
+			// the hand-out functions: methods of the cache whose first result is a native index
+			var handOut []*ssa.Function
+			isHandOut := map[*ssa.Function]bool{}
+			for _, fn := range p.ZapFuncs {
+				if fn.Parent() != nil || fn.Signature.Recv() == nil || !isNamed(fn.Signature.Recv().Type(), zapPkgPath, "vectorIndexCache") || len(fn.Blocks) == 0 || fn.Synthetic != "" {
+					continue
+				}
+				if res := fn.Signature.Results(); res.Len() > 0 && isFaissIndexPtr(res.At(0).Type()) {
+					handOut = append(handOut, fn)
+					isHandOut[fn] = true
+				}
+			}
+			c.check(len(handOut) >= 1, "hand-out-functions", "-", "methods of the cache that hand a native index out are found (pinned tree: loadOrCreate, loadFromCache, createAndCacheLOCKED)", "none found")
 			// load() takes a reference
 			addsRef := func(fn *ssa.Function) bool {
 				reach := p.reachableFrom(fn)
@@ -150,7 +173,8 @@ func ruleR22() *Rule {
 
 			// (b) every hand-out of a non-nil index is preceded by a reference-taking event
 			reachCCE := p.reachesFunc(func(f *ssa.Function) bool { return f == cce })
-			for _, fn := range []*ssa.Function{lfc, cac} {
+			for _, fn := range handOut {
+				fn := fn
 				tr := func(in ssa.Instruction, ev uint64, _ bool) []uint64 {
 					cs, ok := in.(ssa.CallInstruction)
 					if !ok {
@@ -160,7 +184,7 @@ func ruleR22() *Rule {
 					if f == nil {
 						return nil
 					}
-					if f == load || (reachCCE[f] && p.InZap(f)) || f == cac {
+					if f == load || (reachCCE[f] && p.InZap(f)) || (isHandOut[f] && f != fn) {
 						return []uint64{ev | 1}
 					}
 					return nil
@@ -239,49 +263,63 @@ func ruleR22() *Rule {
 			if closeSite == nil {
 				c.undecided("cleanup/evict-site", c.fpos(cleanup), "the eviction (entry.close()) in cleanup is found", "no call of cacheEntry.close in cleanup")
 			} else {
-				// guard on the loaded reference count
-				guardOK := false
+				// guard on the loaded reference count: on every path to the
+				// eviction the last comparison of the freshly loaded count has
+				// the truth table {0: may evict, 1: keep, 2: keep} — whether it
+				// is branched on directly or first stored in a boolean
+				const evZero = 1
 				desc := "no guard on the reference count dominates the eviction"
-				for _, b := range cleanup.Blocks {
-					iff, ok := b.Instrs[len(b.Instrs)-1].(*ssa.If)
+				isRefsLoad := func(v ssa.Value) bool {
+					call, ok := v.(*ssa.Call)
 					if !ok {
-						continue
-					}
-					bo, ok := iff.Cond.(*ssa.BinOp)
-					if !ok {
-						continue
-					}
-					k, isK := constInt64(bo.Y)
-					if !isK {
-						continue
-					}
-					// operand: result of atomic.LoadInt64(&entry.refs)
-					call, ok := bo.X.(*ssa.Call)
-					if !ok {
-						continue
+						return false
 					}
 					if f := call.Call.StaticCallee(); f == nil || f.String() != "sync/atomic.LoadInt64" {
-						continue
+						return false
 					}
-					if sn, fld, _, ok := fieldOf(call.Call.Args[0]); !ok || sn != "cacheEntry" || fld != "refs" {
-						continue
+					sn, fld, _, ok := fieldOf(call.Call.Args[0])
+					return ok && sn == "cacheEntry" && fld == "refs"
+				}
+				condTr := func(cond ssa.Value, outcome bool, ev uint64, _ func(ssa.Value) ssa.Value) uint64 {
+					bo, ok := cond.(*ssa.BinOp)
+					if !ok {
+						return ev
 					}
-					var towardsTrue bool
-					switch {
-					case b.Succs[0].Dominates(closeSite.Block()) && len(b.Succs[0].Preds) == 1:
-						towardsTrue = true
-					case b.Succs[1].Dominates(closeSite.Block()) && len(b.Succs[1].Preds) == 1:
-						towardsTrue = false
-					default:
-						continue
+					k, isK := constInt64(bo.Y)
+					if !isK || !isRefsLoad(bo.X) {
+						return ev
 					}
 					v0, _ := cmpInt(bo.Op, 0, k)
 					v1, _ := cmpInt(bo.Op, 1, k)
 					v2, _ := cmpInt(bo.Op, 2, k)
-					desc = fmt.Sprintf("guard `refs %s %d`: evict at refs 0:%v 1:%v 2:%v", bo.Op, k, v0 == towardsTrue, v1 == towardsTrue, v2 == towardsTrue)
-					if v0 == towardsTrue && v1 != towardsTrue && v2 != towardsTrue {
-						guardOK = true
+					desc = fmt.Sprintf("guard `refs %s %d`: evict at refs 0:%v 1:%v 2:%v", bo.Op, k, v0 == outcome, v1 == outcome, v2 == outcome)
+					if v0 == outcome && v1 != outcome && v2 != outcome {
+						return ev | evZero
 					}
+					return ev &^ evZero
+				}
+				gpa := newPathAnalysis(cleanup, func(in ssa.Instruction, ev uint64, _ bool) []uint64 {
+					if v, ok := in.(ssa.Value); ok && isRefsLoad(v) {
+						return []uint64{ev &^ evZero} // a new load: what was known of the old one is void
+					}
+					return nil
+				})
+				gpa.condTr = condTr
+				gpa.edgeTr = func(pred *ssa.BasicBlock, succIdx int, ev uint64) uint64 {
+					if iff, ok := pred.Instrs[len(pred.Instrs)-1].(*ssa.If); ok {
+						return condTr(iff.Cond, succIdx == 0, ev, func(v ssa.Value) ssa.Value { return v })
+					}
+					return ev
+				}
+				gpa.run(0)
+				guardOK := len(gpa.statesBefore(closeSite)) > 0
+				for _, ev := range gpa.statesBefore(closeSite) {
+					if ev&evZero == 0 {
+						guardOK = false
+					}
+				}
+				if !guardOK && strings.HasPrefix(desc, "guard") {
+					desc += " (or a path reaches the eviction around the guard)"
 				}
 				c.check(guardOK, "cleanup/evict-only-at-zero", c.pos(closeSite), "the monitor evicts an entry only when its reference count is 0 (truth table {0: may evict, 1: keep, 2: keep})", desc)
 				// delete from the map precedes close, under the write lock
@@ -342,19 +380,28 @@ func ruleR22() *Rule {
 					r := root(iv)
 					if ex, ok := r.(*ssa.Extract); ok {
 						if call, ok := ex.Tuple.(*ssa.Call); ok {
-							if f := call.Call.StaticCallee(); f != nil && (namedFn(f, "vectorIndexCache.loadOrCreate") || namedFn(f, "vectorIndexCache.loadFromCache") || f == load || f == cac) {
+							if f := call.Call.StaticCallee(); f != nil && (isHandOut[f] || f == load) {
 								cached = true
 							}
 						}
 					}
-					if cell := cellOfLoad(iv); cell != nil && strings.Contains(cell.Comment, "vecIndex") {
-						cached = true
+					if cell := cellOfLoad(iv); cell != nil {
+						// the captured variable that receives the index handed out by the cache
+						for _, st := range cellStores(cell) {
+							if ex, ok := st.Val.(*ssa.Extract); ok {
+								if call, ok := ex.Tuple.(*ssa.Call); ok {
+									if f := call.Call.StaticCallee(); f != nil && (isHandOut[f] || f == load) {
+										cached = true
+									}
+								}
+							}
+						}
 					}
 					if !cached {
 						continue
 					}
 					nIdxClose++
-					if rootParent(fn) != ceClose {
+					if !onlyWithin(p, fn, ceClose, 0) {
 						okIdx = false
 						bad = append(bad, describeInstr(p, cs)+" in "+funcShortName(fn))
 					}
@@ -390,6 +437,31 @@ func ruleR22() *Rule {
 			}
 		},
 	}
+}
+
+// onlyWithin: fn is owner, a closure inside it, or a function of package zap
+// all of whose callers are (the teardown code of the entry).
+func onlyWithin(p *Program, fn, owner *ssa.Function, depth int) bool {
+	if rootParent(fn) == owner {
+		return true
+	}
+	if depth > 2 || fn.Parent() != nil {
+		return false
+	}
+	if fn.Object() != nil && fn.Object().Exported() {
+		return false
+	}
+	n := 0
+	for _, cs := range p.callersOf(fn) {
+		if par := cs.Parent(); par.Synthetic != "" && len(p.callersOf(par)) == 0 {
+			continue
+		}
+		n++
+		if !onlyWithin(p, cs.Parent(), owner, depth+1) {
+			return false
+		}
+	}
+	return n > 0
 }
 
 func cellOfLoad(v ssa.Value) *ssa.Alloc {
